@@ -553,6 +553,8 @@ impl InnerLocustDB {
             let columns: Vec<_> = partition
                 .clone_column_handles()
                 .into_iter()
+                // A concurrent query for a column this partition lacks leaves an empty placeholder handle
+                .filter(|c| !c.is_empty())
                 .map(|c| c.try_get().as_ref().unwrap().clone())
                 .collect();
             #[cfg(feature = "verif")]
